@@ -460,17 +460,17 @@ Proof.
   induction sigres; cbn; constructor; [discriminate|assumption].
 Qed.
 
-(* every entry kind except EnOther, with the repaired Concat: n lists, none empty *)
+(* with the repaired Concat and fallback: n lists, none empty *)
 Lemma results_of_shape : forall fx p fuel en sigres ls n,
-    fx_concat fx = true -> en <> EnOther ->
+    fx_concat fx = true -> fx_fallback fx = true ->
     (forall f, en = EnBody f -> f < length p) ->
     results_of fx p fuel en sigres = Ok (ls, n) ->
     n = length sigres /\ length ls = n /\ Forall (fun l => l <> []) ls.
 Proof.
-  intros fx p fuel en sigres ls n Hfx Hen Hin H. unfold results_of in H.
+  intros fx p fuel en sigres ls n Hfx Hfb Hin H. unfold results_of in H.
   destruct (Nat.eqb (length sigres) 0) eqn:E0.
   - apply Nat.eqb_eq in E0. inversion H; subst. rewrite E0. repeat split; constructor.
-  - destruct en as [f|fo| |]; [| | |congruence].
+  - destruct en as [f|fo| |].
     + unfold results_from_ast in H. destruct (nth_error p f) eqn:Hf.
       * destruct (results_from_ast_loop fx p fuel f sigres (length sigres) 0 []) as [[ls0 vs]| |] eqn:E; cbn [bind] in H;
           try discriminate.
@@ -484,6 +484,16 @@ Proof.
       * destruct (zip_app_shape (from_signature sigres) inner) as [Hl2 Hne2]. rewrite Hl2. auto.
       * auto.
     + inversion H; subst. destruct (from_signature_shape sigres). auto.
+    + rewrite Hfb in H. inversion H; subst. destruct (from_signature_shape sigres). auto.
+Qed.
+
+(* without the fallback, a signature registered under an unhandled node kind gets no list *)
+Lemma other_unfixed_loses : forall fx p fuel sigres,
+    fx_fallback fx = false -> sigres <> [] ->
+    results_of fx p fuel EnOther sigres = Ok ([], length sigres) /\ 0 < length sigres.
+Proof.
+  intros fx p fuel sigres Hfx Hne. unfold results_of. destruct sigres as [|r rest]; [congruence|].
+  cbn [length Nat.eqb]. rewrite Hfx. split; [reflexivity|lia].
 Qed.
 
 (* the unrepaired Concat loses every list *)
